@@ -38,6 +38,9 @@ type guardsAn struct {
 	price        map[*types.Func]bool // transitively reaches a price call
 	ctl          map[*types.Func]bool // transitively reads the circuit breaker / ESM status
 	callees      map[*types.Func][]*types.Func
+	// `x, _ := k.market.GetTwa(ctx, id)`: a raw read of the oracle record that discards the found flag
+	// (and so cannot be followed by a check of it): treated as a price call site whose error is ignored
+	rawTwa map[*ast.CallExpr]bool
 }
 
 var guardsShared *guardsAn
@@ -50,7 +53,8 @@ func guardsAnalysis(c *corpus) *guardsAn {
 		return guardsShared
 	}
 	an := &guardsAn{c: c, decls: map[*types.Func]guardsDecl{}, keeperByName: map[string][]*types.Func{},
-		writes: map[*types.Func]bool{}, mints: map[*types.Func]bool{}, price: map[*types.Func]bool{}, ctl: map[*types.Func]bool{}, callees: map[*types.Func][]*types.Func{}}
+		writes: map[*types.Func]bool{}, mints: map[*types.Func]bool{}, price: map[*types.Func]bool{}, ctl: map[*types.Func]bool{}, callees: map[*types.Func][]*types.Func{},
+		rawTwa: map[*ast.CallExpr]bool{}}
 	for _, p := range c.all {
 		for _, f := range p.Syntax {
 			for _, d := range f.Decls {
@@ -89,6 +93,14 @@ func guardsAnalysis(c *corpus) *guardsAn {
 				if sel.Sel.Name == "Status" {
 					if t := d.pkg.TypesInfo.TypeOf(sel.X); t != nil && strings.HasSuffix(t.String(), "ESMStatus") {
 						an.ctl[fn] = true
+					}
+				}
+			}
+			if as, ok := n.(*ast.AssignStmt); ok && len(as.Rhs) == 1 && len(as.Lhs) == 2 {
+				if c, ok := as.Rhs[0].(*ast.CallExpr); ok && guardsCalleeName(c) == "GetTwa" {
+					if id, ok := as.Lhs[1].(*ast.Ident); ok && id.Name == "_" && !strings.Contains(d.pkg.PkgPath, "/x/market") {
+						an.rawTwa[c] = true
+						an.price[fn] = true
 					}
 				}
 			}
@@ -319,6 +331,99 @@ type guardsEnv struct {
 	helper  bool
 	stop    bool
 	ctlOpq  *bool // set when a writing call that is not walked into reads the breaker / ESM status itself
+	// provenance of fetched records: variable -> the lookup that produced it and what it was keyed by
+	recs map[types.Object]*guardsRec
+	prov *[]guardsOwnerCmp // every owner comparison met while walking this handler (shared by the sub-walks)
+	// a parameter of an inlined callee: how the caller obtained the argument
+	pkeys map[types.Object]guardsKey
+	// owner comparisons met inside a helper row (a helper row is walked once and shared by its callers)
+	hprov map[string][]guardsOwnerCmp
+}
+
+type guardsKey struct {
+	key    string
+	parent *guardsRec
+}
+
+// guardsRec: `x, found := k.<callee>(ctx, keys...)`; each key is "msg.<Field>" (a field of the message),
+// "<RecordType>.<Field>" (a field of another fetched record, whose own provenance is `parents`), or "?<text>"
+type guardsRec struct {
+	callee  string
+	keys    []string
+	parents []*guardsRec
+}
+
+type guardsOwnerCmp struct {
+	field string // "<RecordType>.<OwnerField>"
+	chain []*guardsRec
+}
+
+// keyOf: how a lookup argument was obtained
+func (e *guardsEnv) keyOf(a ast.Expr) (string, *guardsRec) {
+	if id, ok := a.(*ast.Ident); ok && e.pkeys != nil {
+		if o := e.objOf(id); o != nil {
+			if k, ok := e.pkeys[o]; ok {
+				return k.key, k.parent
+			}
+		}
+	}
+	t := e.txt(a)
+	if strings.HasPrefix(t, "msg.") {
+		t = strings.TrimSuffix(strings.TrimPrefix(t, "msg."), "()")
+		t = strings.TrimPrefix(t, "Get")
+		return "msg." + t, nil
+	}
+	if s, ok := a.(*ast.SelectorExpr); ok {
+		if tn := e.typeNameOf(s.X); tn != "" {
+			var parent *guardsRec
+			if o := e.objOf(s.X); o != nil && e.recs != nil {
+				parent = e.recs[o]
+			}
+			return tn + "." + s.Sel.Name, parent
+		}
+	}
+	return "?" + t, nil
+}
+
+func (e *guardsEnv) noteRec(lhs ast.Expr, call *ast.CallExpr) {
+	o := e.objOf(lhs)
+	if o == nil {
+		return
+	}
+	if e.recs == nil {
+		e.recs = map[types.Object]*guardsRec{}
+	}
+	r := &guardsRec{callee: guardsCalleeName(call)}
+	for i, a := range call.Args {
+		if i == 0 {
+			continue // ctx
+		}
+		k, parent := e.keyOf(a)
+		r.keys = append(r.keys, k)
+		if parent != nil {
+			r.parents = append(r.parents, parent)
+		}
+	}
+	e.recs[o] = r
+}
+
+// chainOf: the record and, transitively, the records its keys were read from (first parent first)
+func guardsChainOf(r *guardsRec) []*guardsRec {
+	var out []*guardsRec
+	seen := map[*guardsRec]bool{}
+	var visit func(x *guardsRec)
+	visit = func(x *guardsRec) {
+		if x == nil || seen[x] || len(out) > 8 {
+			return
+		}
+		seen[x] = true
+		out = append(out, x)
+		for _, p := range x.parents {
+			visit(p)
+		}
+	}
+	visit(r)
+	return out
 }
 
 const guardsMaxDepth = 5
@@ -715,6 +820,15 @@ func (e *guardsEnv) classifyCond(cond ast.Expr) string {
 		if rec != nil {
 			if s, ok := rec.(*ast.SelectorExpr); ok {
 				if tn := e.typeNameOf(s.X); tn != "" {
+					if e.prov != nil {
+						var chain []*guardsRec
+						if o := e.objOf(s.X); o != nil && e.recs != nil && e.recs[o] != nil {
+							chain = guardsChainOf(e.recs[o])
+						} else {
+							chain = []*guardsRec{{callee: "?", keys: []string{"?" + e.txt(s.X)}}}
+						}
+						*e.prov = append(*e.prov, guardsOwnerCmp{field: tn + "." + s.Sel.Name, chain: chain})
+					}
 					return "IGuard (GOwnerEq " + coqString(tn+"."+s.Sel.Name) + " " + coqString(sg) + ")"
 				}
 			}
@@ -912,6 +1026,9 @@ func (e *guardsEnv) handleCall(call *ast.CallExpr, lhs []ast.Expr, checked bool,
 			if len(*e.items) == before {
 				e.emit("IGuard (GCallErr " + coqString(name) + ")")
 			}
+			if len(lhs) == 2 {
+				e.noteRec(lhs[0], call)
+			}
 			return
 		}
 	}
@@ -919,6 +1036,9 @@ func (e *guardsEnv) handleCall(call *ast.CallExpr, lhs []ast.Expr, checked bool,
 		e.emit("IGuard (GCallErr " + coqString(name) + ")")
 	}
 	// x, found := k.GetFoo(ctx, ...)
+	if len(lhs) == 2 {
+		e.noteRec(lhs[0], call)
+	}
 	if len(lhs) == 2 && !checked {
 		if o := e.objOf(lhs[1]); o != nil {
 			if t := e.pkg.TypesInfo.TypeOf(lhs[1]); t != nil && t.String() == "bool" {
@@ -946,7 +1066,7 @@ func (e *guardsEnv) inline(fn *types.Func, d guardsDecl, call *ast.CallExpr, lhs
 // so the helper's remaining checks do not dominate what follows in the caller: the walk of the
 // helper stops there.
 func (e *guardsEnv) inlineAs(fn *types.Func, d guardsDecl, call *ast.CallExpr, lhs []ast.Expr, helper bool) {
-	sub := &guardsEnv{helper: helper || e.helper, ctlOpq: e.ctlOpq, an: e.an, pkg: d.pkg, subst: map[types.Object]string{}, structs: map[types.Object]map[string]string{}, found: map[types.Object]guardsLookup{},
+	sub := &guardsEnv{prov: e.prov, hprov: e.hprov, pkeys: map[types.Object]guardsKey{}, recs: map[types.Object]*guardsRec{}, helper: helper || e.helper, ctlOpq: e.ctlOpq, an: e.an, pkg: d.pkg, subst: map[types.Object]string{}, structs: map[types.Object]map[string]string{}, found: map[types.Object]guardsLookup{},
 		esmVars: map[types.Object]bool{}, brkVars: map[types.Object]string{}, signer: e.signer, sfield: e.sfield,
 		depth: e.depth + 1, stack: e.stack, items: e.items, helpers: e.helpers, curDecl: d.decl, module: e.module}
 	i := 0
@@ -962,6 +1082,13 @@ func (e *guardsEnv) inlineAs(fn *types.Func, d guardsDecl, call *ast.CallExpr, l
 					// a bool parameter carrying the ESM status
 					if e.isEsmStatusExpr(call.Args[i]) {
 						sub.esmVars[o] = true
+					}
+					if k, parent := e.keyOf(call.Args[i]); !strings.HasPrefix(k, "?") {
+						sub.pkeys[o] = guardsKey{k, parent}
+					}
+					// a fetched record handed on to the callee keeps its provenance
+					if ao := e.objOf(call.Args[i]); ao != nil && e.recs != nil && e.recs[ao] != nil {
+						sub.recs[o] = e.recs[ao]
 					}
 				}
 			}
@@ -1019,15 +1146,25 @@ func (e *guardsEnv) subRow(fn *types.Func, d guardsDecl, call *ast.CallExpr) str
 	}
 	key := e.module + "." + fn.Name() + "(" + strings.Join(as, ", ") + ")"
 	if _, done := e.helpers[key]; done {
+		if e.prov != nil && e.hprov != nil {
+			*e.prov = append(*e.prov, e.hprov[key]...)
+		}
 		return key
 	}
 	var items []string
 	e.helpers[key] = nil
-	sub := &guardsEnv{ctlOpq: e.ctlOpq, an: e.an, pkg: e.pkg, subst: e.subst, structs: e.structs, found: e.found, esmVars: e.esmVars, brkVars: e.brkVars,
+	provStart := 0
+	if e.prov != nil {
+		provStart = len(*e.prov)
+	}
+	sub := &guardsEnv{prov: e.prov, hprov: e.hprov, pkeys: e.pkeys, recs: e.recs, ctlOpq: e.ctlOpq, an: e.an, pkg: e.pkg, subst: e.subst, structs: e.structs, found: e.found, esmVars: e.esmVars, brkVars: e.brkVars,
 		signer: e.signer, sfield: e.sfield, depth: e.depth, stack: e.stack, items: &items, helpers: e.helpers,
 		curDecl: e.curDecl, module: e.module}
 	sub.inlineAs(fn, d, call, nil, false)
 	e.helpers[key] = items
+	if e.prov != nil && e.hprov != nil {
+		e.hprov[key] = append([]guardsOwnerCmp{}, (*e.prov)[provStart:]...)
+	}
 	return key
 }
 
@@ -1219,6 +1356,14 @@ func (an *guardsAn) priceUses(root *types.Func) []guardsPriceUse {
 			if h == "" {
 				h = "POther"
 			}
+			if an.rawTwa[call] {
+				u := guardsPriceUse{fname, "GetTwa", "PIgnored"}
+				if !dedup[u] {
+					dedup[u] = true
+					out = append(out, u)
+				}
+				return true
+			}
 			if guardsPriceFns[name] && !guardsPriceFns[fn.Name()] {
 				u := guardsPriceUse{fname, name, h}
 				if !dedup[u] {
@@ -1271,6 +1416,9 @@ func init() {
 			}
 		}
 		helpers := map[string][]string{}
+		var ownerCmps []string
+		ownerCmpSeen := map[string]bool{}
+		hprov := map[string][]guardsOwnerCmp{}
 		var b strings.Builder
 		b.WriteString("(* GENERATED by tools/goextract (emit_guards.go) from the Go source - do not edit.\n")
 		b.WriteString("   One row per msgServer method: what its body does, in order, at the top level (delegation and\n")
@@ -1280,9 +1428,10 @@ func init() {
 		hs := guardsMsgServerMethods(c)
 		for i, h := range hs {
 			var items []string
+			var prov []guardsOwnerCmp
 			ctlOpq := false
 			sf := signers[h.module+"."+h.msgType]
-			env := &guardsEnv{ctlOpq: &ctlOpq, an: an, pkg: h.pkg, subst: map[types.Object]string{}, structs: map[types.Object]map[string]string{}, found: map[types.Object]guardsLookup{},
+			env := &guardsEnv{prov: &prov, hprov: hprov, pkeys: map[types.Object]guardsKey{}, recs: map[types.Object]*guardsRec{}, ctlOpq: &ctlOpq, an: an, pkg: h.pkg, subst: map[types.Object]string{}, structs: map[types.Object]map[string]string{}, found: map[types.Object]guardsLookup{},
 				esmVars: map[types.Object]bool{}, brkVars: map[types.Object]string{}, depth: 0, stack: map[*types.Func]bool{h.fn: true},
 				items: &items, helpers: helpers, curDecl: h.decl, module: h.module, sfield: sf}
 			if sf != "" {
@@ -1295,6 +1444,21 @@ func init() {
 				}
 			}
 			env.walkBlock(h.decl.Body.List)
+			for _, oc := range prov {
+				var links []string
+				for _, r := range oc.chain {
+					var ks []string
+					for _, k := range r.keys {
+						ks = append(ks, coqString(k))
+					}
+					links = append(links, fmt.Sprintf("(%s, [%s])", coqString(r.callee), strings.Join(ks, "; ")))
+				}
+				row := fmt.Sprintf("mkOwnerCmp %s %s [%s]", coqString(h.module+"."+h.decl.Name.Name), coqString(oc.field), strings.Join(links, "; "))
+				if !ownerCmpSeen[row] {
+					ownerCmpSeen[row] = true
+					ownerCmps = append(ownerCmps, row)
+				}
+			}
 			var pus []string
 			for _, u := range an.priceUses(h.fn) {
 				pus = append(pus, fmt.Sprintf("mkPriceUse %s %s %s", coqString(u.inFn), coqString(u.callee), u.handling))
@@ -1321,7 +1485,13 @@ func init() {
 			}
 			fmt.Fprintf(&b, "  (%s, %s)%s\n", coqString(n), guardsList(helpers[n], "     "), sep)
 		}
-		b.WriteString("].\n")
+		b.WriteString("].\n\n")
+		// owner comparisons: which record's owner field is compared with the signer, and how that record
+		// was fetched - the chain of lookups from the compared record back to the fields of the message
+		b.WriteString("(* every `record.OwnerField != signer` comparison met on a handler's walk: the compared field and the chain of\n")
+		b.WriteString("   lookups that produced the record, each with its keys: \"msg.<Field>\", \"<RecordType>.<Field>\" (a field of the\n")
+		b.WriteString("   record fetched by the next link), or \"?<text>\" *)\n")
+		b.WriteString("Definition owner_cmps : list owner_cmp := " + guardsList(ownerCmps, "  ") + ".\n")
 		return b.String(), nil
 	})
 }
